@@ -577,6 +577,7 @@ def run(rep: Report, tier: str) -> None:
 	rule_indent_state(rep, tz, tk)
 	rule_indent_unit(rep, tz)
 	rule_lookahead_bounded(rep, tz)
+	rule_post_filter_passes(rep, tz)
 	rule_context_fresh(rep, tz)
 	rule_lexer_state(rep, idx)
 	rule_unary_minus(rep, idx)
@@ -1131,3 +1132,50 @@ def rule_lookahead_bounded(rep: Report, tz) -> None:
 				key = f'{f.name}:{unparse(node)[:50]}'
 				r.check(implied, key, (TOKENIZER_PY, node.lineno), f'`{unparse(node)[:70]}` reads the source at `{unparse(e)}` (= {terms} + {const}), ahead of the position the lexer was handed, and nothing known at that point implies it is < len(source): a source that ends there — `a -` or a lone `-` without a final newline for the sign test of parse_symbol — raises IndexError out of Tokenizer.parse instead of yielding the tokens CPython yields', unparse(node)[:100])
 	rep.extra_coverage['lexer_reads_at_the_given_position'] = n_base
+
+
+def rule_post_filter_passes(rep: Report, tz) -> None:
+	"""Lexer.post_filter removes comments and the line breaks at the two ends of the token list. The end filter (`BEGIN|END`) is POSITIONAL: whether a
+	line break is the first / last token is only known once the earlier filters have removed what stood before / after it. Hence each filter must sweep
+	the whole list produced by the filters before it (the loop over the filter table encloses the sweep). A single sweep that asks every filter per
+	token judges a line break before the comment behind it is gone: `a = 1\\n# tail\\n` keeps a NEWLINE at the very end (the two line breaks around the
+	comment are merged into a token that lies BEHIND the cursor), which CPython's tokenizer does not emit and the parser rejects. A single sweep is
+	accepted only when the merge steps the cursor back so that the merged token is judged again."""
+	r = rep.rule('C13/post-filters-run-as-successive-passes', 'in Lexer.post_filter the loop over the filter table encloses the sweep that deletes tokens (or a single sweep re-judges a merged token by stepping the cursor back)', floor=1)
+	f = tz.func('Lexer.post_filter')
+	if f is None:
+		r.skip('post_filter', (TOKENIZER_PY, 1), 'Lexer.post_filter vanished')
+		return
+	from vlib.flow import parent_map
+	pm_ = parent_map(f.node)
+	deletes = [n for n in walk_no_nested(f.node) if isinstance(n, ast.Delete) and any(isinstance(t, ast.Subscript) for t in n.targets)]
+	if not deletes:
+		r.skip('post_filter', f.where, 'post_filter no longer deletes tokens from a list in place')
+		return
+
+	def over_filters(n: ast.AST) -> bool:
+		it = n.iter if isinstance(n, (ast.For, ast.comprehension)) else None
+		return it is not None and 'post_filters' in unparse(it)
+
+	enclosed = []
+	for d in deletes:
+		cur = d
+		inside = False
+		while id(cur) in pm_:
+			cur = pm_[id(cur)]
+			if isinstance(cur, ast.For) and over_filters(cur):
+				inside = True
+		enclosed.append(inside)
+	if all(enclosed):
+		r.ok('passes', f.where, message='every deletion happens inside the loop over the filter table')
+		return
+	# single sweep: accepted only if the merge branch steps the cursor back
+	merges = [n for n in ast.walk(f.node) if isinstance(n, ast.Assign) and isinstance(n.targets[0], ast.Subscript) and any(isinstance(c_, ast.Call) and isinstance(c_.func, ast.Attribute) and c_.func.attr == 'joined' for c_ in ast.walk(n.value))]
+	steps_back = False
+	for mg in merges:
+		par = pm_.get(id(mg))
+		body = getattr(par, 'body', []) if par is not None else []
+		branch = body if mg in body else (getattr(par, 'orelse', []) if par is not None else [])
+		steps_back = steps_back or any(isinstance(s_, ast.AugAssign) and isinstance(s_.op, ast.Sub) and isinstance(s_.value, ast.Constant) and s_.value.value == 1 for s_ in branch)
+	where = (TOKENIZER_PY, deletes[0].lineno)
+	r.check(bool(merges) and steps_back, 'passes', where, 'post_filter sweeps the token list ONCE and asks every filter per token: the positional end filter (`BEGIN|END`) judges a line break while the comment behind it is still in the list, and when that comment is removed later the two line breaks around it are merged into a token BEHIND the cursor, which is never judged again — `a = 1\\n# tail\\n` ends in an extra NEWLINE (CPython: none; the parser rejects the module)', unparse(deletes[0])[:80])
